@@ -233,6 +233,7 @@ def tie(tier, seed, replay):
                      "serial provider only (there is no parallel trrel provider)", "column type u32 in the DS harness, i32 in programs; Z in the model"],
         extra=dict(ds_histories=D["evaluations"], ds_model_differs=D["model_diffs"], ds_law_failures_by_class={str(k): v for k, v in D["counts"].items()},
                    prog_runs=P["runs"], prog_mismatches_by_class={str(k): v for k, v in P["counts"].items()}, prog_cases_skipped_oracle_too_slow=P["skipped"],
-                   partial=["not proved in Coq: the engine-level lifting (engine_with_providers of DESIGN C10: C01 with least_model(P + closure rule)); carried by the PROG half",
+                   partial=["program level is proved on the engine MODEL (c11_program_binary / c11_program_ternary through Engine/ProvProofsW.prun_plan_correct_w: least model of P ++ [explicit closure rule]); that the generated Rust is that model (code generation, keyed index views chosen by the plan) is carried by the PROG half",
                             "forward views of the ternary form (full, none, [0], [0,1], [0,2]) are tied, not characterised by theorems; the reverse-map views [1], [2], [1,2] are (c11_ternary_rev_views_exact)"]))
+
 
